@@ -7,7 +7,7 @@ fresh names incl. swaps and chains, two prefixes), and two-set declarations, on 
 (in 3 separate processes: different HashMap seeds) and on the model. Oracle on the implementation
 alone: an independent Python implementation of the import-set algebra."""
 import itertools, random
-from . import common as C
+from . import common as C, progrun as R
 
 PROP = "C12"
 MODULES = ["RuschmProofs.C12", "RuschmProofs.C12More"]
@@ -232,6 +232,13 @@ def run(rep, tier, rng):
     rep.extra["conflicting_terms"] = inadmissible
 
 
+def library_soup(rep, tier, rng):
+    """LIBRARY SOUP (checks/pylib.py): a DAG of two to four stateful libraries importing one another through every kind of import
+    set, a program that imports some of them and calls what it sees - judged by an independent reference module system in Python"""
+    from . import pylib
+    pylib.soup_phase(rep, rng, 100 if tier == "quick" else 2000, C, R)
+
+
 def main(tier, seed):
     rep = C.Report(PROP, tier, seed)
     rng = random.Random(seed)
@@ -241,7 +248,8 @@ def main(tier, seed):
                        "(exhaustive) and depth 2 (6000 sampled in quick, exhaustive in thorough; sampled depth 3 in thorough), and "
                        "two-set declarations of depth-1 terms, declarations of two or three sets of any depth with the bare library among them; sequences of two or three declarations that bind a name again to an equal-looking but different object (told apart through state); terms that bind one name twice must be rejected; each run in 3 processes; "
                        "distinct = distinct declaration texts")
-    ok = C.standard_proof_phase(rep, MODULES, directed_search=lambda r: run(r, tier, rng))
+    ok = C.standard_proof_phase(rep, MODULES, directed_search=lambda r: (run(r, tier, rng), library_soup(r, tier, rng)))
     if ok:
         run(rep, tier, rng)
+        library_soup(rep, tier, rng)
     return rep.finish("cd lean && lake build RuschmProofs.C12 && lake env lean <#print axioms of every theorem in RuschmProofs/C12.lean>")
